@@ -68,9 +68,19 @@ def _sub_calls(prog):
     """re.sub / re.search effects of inline_variables with one variable defined."""
     out = []
     for tr in run_execute(prog, "SELECT", None, variables={"VARNAME": Const("VALUE")}):
+        compiled = {}
         for e in tr.path.effects:
             if e[0] == "call" and e[1] in ("re.sub", "re.subn"):
                 out.append(e)
+            elif e[0] == "call" and e[1] == "re.compile":
+                compiled[len(compiled)] = e
+            elif e[0] == "call" and str(e[1]).endswith((".sub", ".subn")) and "re.compile" in str(e[1]) and compiled:
+                # <compiled>.sub(repl, text): present it in re.sub's argument layout
+                c = list(compiled.values())[-1]
+                pat = c[2][0] if c[2] else c[3].get("pattern")
+                flags = c[3].get("flags", c[2][1] if len(c[2]) > 1 else None)
+                args = [pat, *e[2]]
+                out.append(("call", "re.sub", args, {"flags": flags} if flags is not None else {}, e[4]))
         if out:
             break
     return out
